@@ -30,7 +30,7 @@ def main():
     # tier 2: the real proxy with real pion clients in the same process
     try:
         eb = proxy_t2_common.build()
-        res = enumlib.run(eb, "TestVerifEnumC16T2", tier, 540 if tier == "quick" else 1800, nshards=14)
+        res = enumlib.run(eb, "TestVerifEnumC16T2", tier, 540 if tier == "quick" else 1800, nshards=16)
         for f in res["findings"]:
             rep.finding(f["sig"], f["msg"], {"input": f["input"], "kind": "real-proxy scenario (SnowflakeProxy.Start, scripted broker and relay on loopback, real pion clients)", "test": "TestVerifEnumC16T2"})
         rep.coverage["real_proxy_tier2"] = {"scenarios": res["evaluations"], "sections": res["sections"], "completed": res["exhaustive"], "stop_reason": res.get("stop_reason"),
